@@ -32,7 +32,7 @@ RULE = ("dates: ordinal 1, 3652059, every 1 Jan / 31 Dec / 29 Feb (sampled in qu
         "+-1 us, +-1 s, fixed offsets up to +-23:59:59.999999, zoneinfo zones (London, New_York, Tokyo, Abidjan, Reykjavik, Lord_Howe); "
         "uuids: 0, 2^128-1, single-byte patterns, random; decimals: (precision <= 40, scale <= precision, size <= 17) accepted by "
         "parse_schema, values +-(2^(8k-1) - {0,1,2}), +-(2^(8k-1)+1), +-10^j, +-(10^j - 1), negative zero in several exponents, "
-        "positive exponents, one digit too many, one fractional digit too many, one bit too large, NaN / Infinity, random; "
+        "positive exponents, one digit too many, 1..4 fractional digits too many in every zero / non-zero pattern, one bit too large, NaN / Infinity, random; "
         "container positions: every logical type at top level, as record field, array item, map value, union branch, in nested "
         "containers and (named fixed decimal) by reference, read schemaless / from a container file, with and without a reader schema; "
         "reader alone: random byte strings incl. more digits than the precision and exact ties (half-even rounding); "
@@ -1090,6 +1090,25 @@ def dec_values(rng, p, sc, ks, nrand):
     return out
 
 
+def excess_values(rng, p, sc, quick):
+    """k = 1..4 fractional digits beyond the scale, in every zero / non-zero pattern of those k digits
+    ('1.2340', '1.2304', '1.2300', '0.0010' ... under scale 2), alternating signs: as_tuple() has exponent -(scale+k)"""
+    out = []
+    idx = 0
+    for k in (1, 2, 3, 4):
+        pats = list(range(2 ** k))
+        if quick and k == 4:
+            pats = sorted(set(rng.sample(pats, 4)) | {0b0110, 0b1110, 0b1010})
+        n = min(p, k + 2)
+        for pat in pats:
+            tail = [(rng.randint(1, 9) if (pat >> (k - 1 - j)) & 1 else 0) for j in range(k)]
+            ds = ([rng.randint(1, 9) for _ in range(max(0, n - k))] + tail)[-n:]
+            idx += 1
+            out.append((idx % 2, ds, -sc - k))
+            out.append((idx % 2, ds, -sc))                    # the same digits within the scale: representable
+    return out
+
+
 def band_values(p, sc, k):
     """few-digit mantissas with trailing zeros (positive exponent / scale padding) right below 2^(8k-1), inside the
     one-bit band [2^(8k-1), 2^(8k)) and right above it, both signs: the precision check sees one or two digits only,
@@ -1143,6 +1162,7 @@ def gen_decimal_cases(ctx):
             head = [v for v in vals if not any(v[1])]                 # zeros always
             vals = head + rng.sample(vals, budget)
         omit = rng.random() < 0.3
+        vals += excess_values(rng, p, sc, quick)              # always: excess fractional digits, all zero patterns
         for v in vals:
             cases.append(dict(kind="bytes-decimal", precision=p, scale=sc, datum=list(v), omit_scale=omit))
         # fixed: every size the schema parser accepts for this precision (a sample in quick)
@@ -1157,6 +1177,8 @@ def gen_decimal_cases(ctx):
                 head = [v for v in vals if not any(v[1])]
                 vals = head + rng.sample(vals, budget)
             vals += band_values(p, sc, size)                  # always: one bit too large through trailing zeros
+            if not quick or size == pick[0]:
+                vals += excess_values(rng, p, sc, quick)
             for v in vals:
                 cases.append(dict(kind="fixed-decimal", precision=p, scale=sc, size=size, datum=list(v), omit_scale=omit))
     # the recorded witnesses, always
